@@ -53,16 +53,44 @@ type writeResult struct {
 	n        int64
 	err      error
 	after    map[string][]byte // the caller's map after the call (head is patched in place)
+	// non-empty when header.Write changed bytes of the caller's tables other than
+	// the head checksum field, or bytes behind them in the same backing array
+	inputChanged string
 }
 
-// runWrite calls header.Write on a private copy of the tables.
+// runWrite calls header.Write on a private copy of the tables.  The copies are
+// adjacent sub-slices of ONE backing array (the way a caller re-packing an
+// in-memory font file passes them: data[off:off+len], capacity reaching into the
+// following tables), followed by sentinel bytes; header.Write is documented to change
+// the checksum field of the head table in place and nothing else.
 func runWrite(scaler uint32, ts []tab) (res writeResult) {
 	m := make(map[string][]byte, len(ts))
+	total := 0
 	for _, t := range ts {
+		total += len(t.data)
+	}
+	const nSentinel = 8
+	shared := make([]byte, 0, total+nSentinel)
+	type span struct{ a, b int }
+	spans := make([]span, len(ts))
+	// tag order (ts is sorted): for tables of equal priority the neighbour in
+	// memory is written later; prioritised tables end up with arbitrary neighbours
+	for i := 0; i < len(ts); i++ {
+		t := ts[i]
+		a := len(shared)
+		if !t.isNil {
+			shared = append(shared, t.data...)
+		}
+		spans[i] = span{a, len(shared)}
+	}
+	for i := 0; i < nSentinel; i++ {
+		shared = append(shared, 0xA5)
+	}
+	for i, t := range ts {
 		if t.isNil {
 			m[t.name] = nil
 		} else {
-			m[t.name] = append(make([]byte, 0, len(t.data)), t.data...)
+			m[t.name] = shared[spans[i].a:spans[i].b] // capacity extends to the end of the array
 		}
 	}
 	res.after = m
@@ -77,7 +105,29 @@ func runWrite(scaler uint32, ts []tab) (res writeResult) {
 		res.n, res.err = header.Write(buf, scaler, m)
 	}()
 	res.out = buf.Bytes()
+	// input integrity
+	for i, t := range ts {
+		if t.isNil {
+			continue
+		}
+		got := shared[spans[i].a:spans[i].b]
+		if !eqExceptAdj(got, t.data, t.name == "head") && res.inputChanged == "" {
+			res.inputChanged = fmt.Sprintf("the caller's data of table %q changed from % x to % x", t.name, clip(t.data), clip(got))
+		}
+	}
+	for i := 0; i < nSentinel; i++ {
+		if shared[total+i] != 0xA5 && res.inputChanged == "" {
+			res.inputChanged = fmt.Sprintf("byte %d behind the caller's last table was overwritten (%#x)", i, shared[total+i])
+		}
+	}
 	return res
+}
+
+func clip(b []byte) []byte {
+	if len(b) > 24 {
+		return b[:24]
+	}
+	return b
 }
 
 func (r writeResult) obs() string {
@@ -305,6 +355,7 @@ const (
 	sigWalk      = "c03-container-malformed"
 	sigRound     = "c03-read-back-differs"
 	sigCount     = "c03-write-count-wrong"
+	sigInput     = "c03-write-modifies-input"
 )
 
 // written returns the entries header.Write is documented to write.
@@ -352,6 +403,9 @@ func writeOracle(scaler uint32, ts []tab, res writeResult) (detail, sig string) 
 	}
 	if res.n != int64(len(res.out)) {
 		return fmt.Sprintf("returned count %d, %d bytes written", res.n, len(res.out)), sigCount
+	}
+	if res.inputChanged != "" {
+		return "header.Write modified its input beyond the head checksum field: " + res.inputChanged, sigInput
 	}
 	if err := walk(res.out); err != nil {
 		sig := sigWalk
